@@ -401,6 +401,7 @@ func runSList(c slistCase, r *pb.Rec) error {
 	} else {
 		l = listz.NewSingly[int]()
 	}
+	earlySeq := l.All() // obtained on the empty list, ranged after every step
 	var model []int
 	var spare []*listz.SNode[int] // removed nodes, re-usable
 	next := 0
@@ -521,6 +522,11 @@ func runSList(c slistCase, r *pb.Rec) error {
 			if n++; n > len(model)+2 {
 				return fmt.Errorf("%s: traversal does not terminate (model %v)", where, model)
 			}
+		}
+		var early []int
+		earlySeq(func(v int) bool { early = append(early, v); return true })
+		if fmt.Sprint(early) != fmt.Sprint(model) && len(model)+len(early) > 0 {
+			return fmt.Errorf("%s: an All() sequence obtained while the list was still empty yields %v, model %v", where, early, model)
 		}
 		seq := l.All()
 		first := 0
